@@ -52,6 +52,7 @@ var c04Probes = []struct {
 	{"negative-zero-inside-container-argument", []string{`func inva(a) { 1 / a[0] }`, `println(inva([0.0]))`, `println(inva([-0.0]))`, `func invm(m) { 1 / m.z }`, `println(invm({"z": 0.0}))`, `println(invm({"z": -0.0}))`}},
 	{"variadic-array-argument-key", []string{`func va(a, ..) { .. }`, `println(va(1, [[2, 3]]))`, `println(va(1, [2, 3]))`}},
 	{"cached-large-array-mutated-through-result", []string{`func mk(n) { [1, 2, 3, 4, 5, 6, 7, 8, 9] + [n] }`, `a = mk(1)`, `a[0] = 99`, `println(mk(1))`}},
+	{"cached-closure-factory", []string{`mkc = func() { cnt9 := 0; () => { cnt9 = cnt9 + 1; cnt9 } }`, `ca = mkc()`, `cb = mkc()`, `println(ca(), ca(), cb())`}},
 	{"sleep-in-function", []string{`func nap(d) { sleep(d); d }`, `println(nap(0.5))`, `println(nap(0.5))`, `func napc(d) { catch(sleep(d)).err }`, `println(napc(0.25), napc(0.25))`}},
 	// IO functions inside a function (the probe runs in a scratch directory)
 	{"io-save-in-function", []string{`func sv() { save("c04p").entries }`, `ga1 = 1`, `println(sv())`, `ga2 = 2`, `println(sv())`}},
